@@ -32,20 +32,27 @@ class langs:
         LANGS = self.saved
 
 
-class rows:
-    """context manager: run the grid with other element names (e.g. names containing column keywords)"""
+INNER = "inner"  # name of the plain question inside the group row
 
-    def __init__(self, alt):
+
+class rows:
+    """context manager: run the grid with other element names (e.g. names containing column keywords);
+    `inner` renames the question inside the group (e.g. to the top-level question's name: legal, other section)"""
+
+    def __init__(self, alt, inner=None):
         self.alt = list(alt)
+        self.inner = inner
 
     def __enter__(self):
-        global ROWS
-        self.saved = ROWS
+        global ROWS, INNER
+        self.saved = (ROWS, INNER)
         ROWS = self.alt
+        if self.inner:
+            INNER = self.inner
 
     def __exit__(self, *a):
-        global ROWS
-        ROWS = self.saved
+        global ROWS, INNER
+        ROWS, INNER = self.saved
 
 
 def cells(core=False):
@@ -118,7 +125,7 @@ def build(filled, deflang=None, delim="::", ref=False, second_select=True, defla
             row["required"] = "yes"
         rows.append(row)
         if ty == "begin group":
-            rows.append({"type": "text", "name": "inner", "label": "inner"})
+            rows.append({"type": "text", "name": INNER, "label": "inner"})
             rows.append({"type": "end group"})
     if second_select:
         rows.append({"type": "select_multiple c", "name": "s2", "label": "s2.label"})
